@@ -3,8 +3,8 @@
    take as Section variables (hash, MAC, ...); the driver implements it by
    asking the harness over the pipe. *)
 From Coq Require Import List NArith ZArith Bool Ascii String.
-From Authlib Require Import Base.Bytes Base.Base64 Base.BigEndian Base.PyVal.
-From Authlib Require Import Model.JWK Model.Claims Spec.ClaimsSpec Model.Resource Model.Scope Model.ClientAuth.
+From Authlib Require Import Base.Bytes Base.Base64 Base.BigEndian Base.PyVal Base.Url Base.Percent Base.Utf8.
+From Authlib Require Import Model.JWK Model.Claims Spec.ClaimsSpec Model.Resource Model.Scope Model.ClientAuth Model.Metadata Spec.MetadataSpec.
 Import ListNotations.
 Open Scope string_scope.
 
@@ -160,6 +160,36 @@ Definition dispatch_clientauth (fn : string) (a : pv) : option pv :=
           end)
   else None.
 
+Definition pv_of_url (u : url6) : pv :=
+  PList [PStr (u_scheme u); PStr (u_netloc u); PStr (u_path u); PStr (u_params u); PStr (u_query u); PStr (u_fragment u)].
+
+Definition dispatch_url (fn : string) (a : pv) : option pv :=
+  if String.eqb fn "urlparse" then Some (pv_of_url (urlparse (pv_str a)))
+  else if String.eqb fn "urlunparse" then
+    match pv_list a with
+    | [s; n; p; pa; q; f] => Some (PStr (urlunparse {| u_scheme := pv_str s; u_netloc := pv_str n; u_path := pv_str p;
+                                                        u_params := pv_str pa; u_query := pv_str q; u_fragment := pv_str f |}))
+    | _ => None
+    end
+  else if String.eqb fn "is_valid_url" then Some (PBool (is_valid_url (arg_s "url" a) (arg_b "fragments_allowed" a)))
+  else if String.eqb fn "is_secure_transport" then Some (PBool (is_secure_transport (pv_str a)))
+  else if String.eqb fn "hostname" then Some (pv_of_ostr (hostname (pv_str a)))
+  else if String.eqb fn "unquote" then Some (PStr (unquote (pv_str a)))
+  else if String.eqb fn "quote" then Some (PStr (quote (arg_s "safe" a) (arg_s "s" a)))
+  else if String.eqb fn "quote_plus" then Some (PStr (quote_plus (pv_str a)))
+  else if String.eqb fn "utf8_valid" then Some (PBool (utf8_valid (pv_str a)))
+  else None.
+
+Definition pv_of_mres (r : mres) : pv :=
+  match r with MOk => PList [PStr "ok"] | MErr k => PList [PStr "error"; PStr k] | MCrash => PList [PStr "crash"] end.
+
+Definition dispatch_metadata (fn : string) (a : pv) : option pv :=
+  if String.eqb fn "as_validate" then Some (pv_of_mres (as_validate (dict_of_pv a)))
+  else if String.eqb fn "op_validate" then Some (pv_of_mres (op_validate (dict_of_pv a)))
+  else if String.eqb fn "as_spec" then Some (PList [PBool (doc_ok RFC8414_RULES (dict_of_pv a)); PBool (doc_wf (dict_of_pv a))])
+  else if String.eqb fn "op_spec" then Some (PList [PBool (doc_ok OIDC_RULES (dict_of_pv a)); PBool (doc_wf (dict_of_pv a))])
+  else None.
+
 Definition dispatch (fn : string) (a : pv) : pv :=
   if String.eqb fn "oracle_echo" then oracle "echo" a else
   match dispatch_jwk fn a with
@@ -176,6 +206,12 @@ Definition dispatch (fn : string) (a : pv) : pv :=
   | None =>
   match dispatch_clientauth fn a with
   | Some r => r
+  | None =>
+  match dispatch_url fn a with
+  | Some r => r
+  | None =>
+  match dispatch_metadata fn a with
+  | Some r => r
   | None => err ("unknown function " ++ fn)
-  end end end end end.
+  end end end end end end end.
 End D.
